@@ -63,6 +63,10 @@ CHECKS = {
    text="(splitter) generated block sizes, blob-index sizes and sequences of batches of entry lengths (boundary values, runs of 169/170/171/340/341 small entries) drive Buffer + Splitter::split with a persistent SplitCtx; invariants on every blob part and on a virtual device replayed from the parts and walked by an independent format reader (scan == written, disjoint regions, payload at recorded position). (end to end) hybsim histories whose batch boundaries are chosen by holding io, with sizes that fill the current block exactly / by one page more, runs that fill blob indexes, deletes, reuse after reclaim and graceful reopen; at every quiescent point: independent parse of every block (geometry, index == header, checksum), every key the disk tier claims loads and equals the entry the scan reconstructs as newest for its hash, and after a graceful reopen recovery == scan and nothing loadable is lost.",
    note="Identity hasher; compression off in the end-to-end part. Staleness relative to the insert history is C01's claim and not asserted here. A runaway loop / allocation inside the splitter ends the run as inconclusive (exit 2) through run.sh's supervision.",
    technique="property-based testing with an independent format reader as oracle (proptest random): direct splitter harness + end-to-end on the simulated device"),
+ "C09": dict(engine="hybsim", category="exploration", design="§5 C09",
+   text="Sustained workloads of several device capacities (mixed sizes, overwrites, deletes, bursts) on devices of 4-12 blocks x 16-64 KiB, flushers 1-3, reclaimers 1-2, thresholds inside the engine's no-warning domain, reinsertion filter none/some keys, flush buffer 1-2 blocks per flusher (and an oversized class); io held and completed in a generated order that includes reclaim reads and clean writes. Log invariants from the simulated device's logical clock: no overlapping in-flight writes, data ranges of a block epoch disjoint, index rewrites never touch entry data, no clean while a write to the block is in flight and vice versa. At quiescent points every key is intact (current version) or absent; wait() at generated points resolves under every generated completion order (quiescence = stall); reinsertion-filter keys whose latest version was flushed still hit after their block's reclaim.",
+   note="The 'oldest-filled first' sub-claim is NOT decided: an executable notion of 'filled' that is robust to multi-block batches under held io could not be stated without alarms on the unchanged tree (see DESIGN.md §C09). One known finding (stale entry when a batch spans >= 3 blocks, i.e. flush buffer > 2 blocks) is tolerated by structural signature. Single OS thread.",
+   technique="property-based testing on a simulated device with generated io completion order (proptest random), io-log invariants + model oracle + quiescence-based liveness"),
 }
 
 NOT_YET = {
@@ -106,7 +110,7 @@ def main():
         "engines": [
             {"name": "memsim", "path": "/verif/harness/core/src/memsim.rs", "serves_properties": ["C05", "C13", "C14", "C16", "C17", "C18"],
              "kind_free_text": "single-threaded interpreter for foyer::Cache histories + event-driven reference model (memoracle.rs) + eviction reference models (evmodel.rs)"},
-            {"name": "hybsim", "path": "/verif/harness/core/src/hybsim.rs", "serves_properties": ["C01", "C03", "C04", "C07", "C10", "C12", "C15", "C17"],
+            {"name": "hybsim", "path": "/verif/harness/core/src/hybsim.rs", "serves_properties": ["C01", "C03", "C04", "C07", "C09", "C10", "C12", "C15", "C17"],
              "kind_free_text": "deterministic interpreter for HybridCache histories on a simulated device/io engine (simdev.rs) with harness-owned io completion order; oracles in hyboracle.rs; independent format reader fmtparse.rs"},
             {"name": "fetchsim", "path": "/verif/harness/core/src/fetchsim.rs", "serves_properties": ["C06", "C11", "C17"],
              "kind_free_text": "manual executor for get_or_fetch histories: harness futures for disk lookup / origin fetch, harness-driven runtime, protocol state machine as oracle"},
